@@ -166,36 +166,30 @@ class Ev(object):
     return bool(v)
 
 
-def chain_signature(head_if, var_text, value, family=None):
+def chain_signature(head_if, var_text, value, family=None, arms=None):
   """Which branch of the if/elif chain runs for this spelling:
-  ('T', k) branch k taken, ('else',), or a string with '?' when undecided."""
+  ('T', k) branch k taken, ('else',), or a string with '?' when undecided.
+  arms: the Ifs of the chain (model.orelse_view(...).chain(head)[0]); by
+  default the syntactic elif chain."""
   ev = Ev(var_text, value, family)
-  cur = head_if
-  k = 0
+  if arms is None:
+    arms = [head_if]
+    while len(arms[-1].orelse) == 1 and isinstance(arms[-1].orelse[0],
+                                                   ast.If):
+      arms.append(arms[-1].orelse[0])
   sig = []
   # branches whose bodies are identical count as the same outcome
   rep = {}
-  bodies = []
-  c2 = head_if
-  while True:
-    bodies.append('\n'.join(ast.dump(s) for s in c2.body))
-    if len(c2.orelse) == 1 and isinstance(c2.orelse[0], ast.If):
-      c2 = c2.orelse[0]
-    else:
-      break
+  bodies = ['\n'.join(ast.dump(s) for s in a.body) for a in arms]
   for i, b in enumerate(bodies):
     rep[i] = bodies.index(b) if b else i
-  while True:
+  for k, cur in enumerate(arms):
     t = ev.truth(cur.test)
     if t is True:
       return tuple(sig) + (('T', rep.get(k, k)),)
     if t is UNKNOWN or t == 'raises':
       sig.append(('?', k, t))
-    k += 1
-    if len(cur.orelse) == 1 and isinstance(cur.orelse[0], ast.If):
-      cur = cur.orelse[0]
-      continue
-    return tuple(sig) + (('else',),)
+  return tuple(sig) + (('else',),)
 
 
 def reads_var(expr, var_text):
